@@ -20,18 +20,19 @@ def hdrTok (k : Kind) (h : Hdr) : String :=
   | .tcp => s!"{hex16 h.tid}:{hex8 h.unit}"
   | .rtu => hex8 h.unit
 
-/-- iterate `framed.next().await` over a read script and render what it yields -/
+/-- iterate `framed.next().await` over a read script and render what it yields; returns the
+    rendered results, the reader and the decoder state at the end -/
 def streamRun {σ ι} (D : Decoder σ ι) (render : ι → String) :
-    Nat → σ → ReadFrame → List ReadEv → List String → List String × ReadFrame
-  | 0, _, r, _, acc => (("fuel" :: acc).reverse, r)
+    Nat → σ → ReadFrame → List ReadEv → List String → List String × ReadFrame × σ
+  | 0, s, r, _, acc => (("fuel" :: acc).reverse, r, s)
   | fuel + 1, s, r, evs, acc =>
     match awaitNext D s r evs with
     | (.item i, s', r', evs') => streamRun D render fuel s' r' evs' (("item " ++ render i) :: acc)
     | (.error k, s', r', evs') => streamRun D render fuel s' r' evs' (("err:" ++ errKind k) :: acc)
     | (.done, s', r', evs') =>
-      if evs'.isEmpty then (("done" :: acc).reverse, r') else streamRun D render fuel s' r' evs' ("done" :: acc)
-    | (.pending, _, r', _) | (.blocked, _, r', _) => (("blocked" :: acc).reverse, r')
-    | (.panic, _, r', _) => (("panic" :: acc).reverse, r')
+      if evs'.isEmpty then (("done" :: acc).reverse, r', s') else streamRun D render fuel s' r' evs' ("done" :: acc)
+    | (.pending, s', r', _) | (.blocked, s', r', _) => (("blocked" :: acc).reverse, r', s')
+    | (.panic, s', r', _) => (("panic" :: acc).reverse, r', s')
 
 def rawAduDecoder : Decoder FrameDecoder (TcpHeader × Bytes) :=
   { decode := fun fd buf => match aduDecode buf with | (r, b) => (r, fd, b) }
@@ -41,16 +42,19 @@ def rawRtuDecoder (lenFn : Bytes → Res (Option Nat)) : Decoder FrameDecoder (U
 
 def streamOp (codec : String) (evs : List ReadEv) : Option String :=
   let fuel := readBytesTotal evs + evs.length + 5
-  let fin (p : List String × ReadFrame) : String :=
-    String.intercalate " | " p.1 ++ s!" ; buf {p.2.buffer.length}"
+  let fin (p : List String × ReadFrame × FrameDecoder) : String :=
+    String.intercalate " | " p.1 ++ s!" ; buf {p.2.1.buffer.length}"
+  -- the RTU codecs also show how many dropped bytes the frame decoder remembers
+  let finRtu (p : List String × ReadFrame × FrameDecoder) : String :=
+    fin p ++ s!" ; dropped {p.2.2.dropped.length}"
   match codec with
   | "tcpsrv" => some <| fin <|
     streamRun (serverDecoder .tcp) (fun (h, r) => hdrTok .tcp h ++ ":" ++ request r) fuel {} {} evs []
-  | "rtusrv" => some <| fin <|
+  | "rtusrv" => some <| finRtu <|
     streamRun (serverDecoder .rtu) (fun (h, r) => hdrTok .rtu h ++ ":" ++ request r) fuel {} {} evs []
   | "tcpcli" => some <| fin <|
     streamRun (clientDecoder .tcp) (fun (h, r) => hdrTok .tcp h ++ ":" ++ responseResult r) fuel {} {} evs []
-  | "rtucli" => some <| fin <|
+  | "rtucli" => some <| finRtu <|
     streamRun (clientDecoder .rtu) (fun (h, r) => hdrTok .rtu h ++ ":" ++ responseResult r) fuel {} {} evs []
   | "tcpadu" => some <| fin <|
     streamRun rawAduDecoder (fun (h, p) => s!"{hex16 h.transactionId}:{hex8 h.unitId}:{hexBytes p}") fuel {} {} evs []
